@@ -141,8 +141,14 @@ def _tree(draw):
         elif style == "climb":
             links[p] = ("../" * (parent.count("/") + 2 if parent else 1) + "outside.txt", style)
     order = draw(st.permutations(sorted(list(files) + list(meta) + list(links))))
+    # DOS time stamps that no calendar knows (written by careless tools; the ZIP format does not forbid them) and extremes
+    dates = {}
+    if (files or meta or links) and draw(st.integers(0, 2)) == 0:
+        for p in draw(st.lists(st.sampled_from(sorted(list(files) + list(meta) + list(links))), max_size=2, unique=True)):
+            dates[p] = draw(st.sampled_from([[1980, 0, 0, 0, 0, 0], [1980, 1, 1, 0, 0, 0], [2107, 12, 31, 23, 59, 58], [2001, 2, 30, 12, 0, 0],
+                                             [2001, 9, 9, 1, 46, 62], [1999, 13, 1, 0, 0, 0], [2001, 9, 9, 25, 61, 0]]))
     return {"dirs": [d for d in dirs if d], "files": files, "meta": meta, "links": {k: list(v) for k, v in links.items()},
-            "order": list(order), "explicit_dirs": draw(st.sampled_from(["none", "all", "some"])),
+            "order": list(order), "dates": dates, "explicit_dirs": draw(st.sampled_from(["none", "all", "some"])),
             "utf8": draw(st.booleans()), "dirs_first": draw(st.booleans())}
 
 
@@ -215,6 +221,8 @@ def _build_twins(tree, root):
     body = []
     for p in tree["order"]:
         fl = {"utf8": tree["utf8"] and _is_utf8(p)}
+        if p in tree.get("dates", {}):
+            fl["date"] = tree["dates"][p]
         if p in tree["files"]:
             body.append([p, "f", tree["files"][p], fl])
         elif p in tree["meta"]:
